@@ -27,6 +27,9 @@ func WrapIPUDP(dhcpPayload []byte, srcIP, dstIP net.IP) []byte {
 
 	src4 := srcIP.To4()
 	dst4 := dstIP.To4()
+	if src4 == nil || dst4 == nil {
+		return nil
+	}
 
 	pkt[0] = 0x45
 	binary.BigEndian.PutUint16(pkt[2:4], uint16(ipLen))
